@@ -151,9 +151,11 @@ class Report:
         if not deductive and self.level == "proof" and code == 0:
             lines.append("CHECKER-FAILURE property=%s zero obligations generated" % self.prop)
             code = 3
-        for r in errors:
-            lines.append("CHECKER-ERROR property=%s obligation=%s %s" % (self.prop, r.oid, r.output[-800:]))
-        for r in undecided:
+        for r in errors[:4]:
+            lines.append("CHECKER-ERROR property=%s obligation=%s %s" % (self.prop, r.oid, r.output.strip()[-400:]))
+        if len(errors) > 4:
+            lines.append("CHECKER-ERROR ... and %d more" % (len(errors) - 4))
+        for r in undecided[:12]:
             if r in violated:
                 lines.append("UNDECIDED property=%s lemma-failed obligation=%s %s" % (self.prop, r.oid, r.detail[:200]))
             else:
